@@ -925,6 +925,7 @@ func (P) Generate(g0 *core.Gen) {
 		}
 		return
 	}
+	genPolicyOps(g, g.R.Fork(), g.N(150, 3000))
 	// thin slice: non-conflicting chains, no blocks beyond the base chain
 	for i := 0; i < g.N(60, 200); i++ {
 		r := g.R.Fork()
